@@ -11,7 +11,7 @@
 
   Assumed of the transport (as net/http behaves, and as the scripted transport of the harness does):
   the body ends right after the trailer frame, and body reads fail once the request's context is
-  done — so the `ioutil.ReadAll(reply.Body)` that precedes the completion `defer` returns at once and
+  done (also a read of bytes that had already arrived: `tAbort`) — so the `ioutil.ReadAll(reply.Body)` that precedes the completion `defer` returns at once and
   is not modelled as a separate step (nor is the fact that the trailer path holds rMu across it).
 
   A response body is modelled at the level of what one iteration of the decode loop sees (the byte
@@ -86,6 +86,7 @@ inductive Act where
   -- transport
   | tReply | tReplyStatus (code : Nat) | tReplyBadHeaders | tFail
   | tItem (i : Item) | tEnd
+  | tAbort                             -- the request's context is done: the transport fails the read of the still unread trailer frame
   | tReadReq                           -- the server consumes the request frame a SendMsg is writing
   -- reader goroutine
   | rdDecode | rdHandoff | rdCtx
@@ -141,6 +142,15 @@ def step (s : St) : Act → Option (St × List Ev)
                      bodyEnded := (match i with | .data _ _ => false | _ => true) }, [])
     else none
   | .tEnd => if s.replied && !s.bodyEnded then some ({ s with bodyEnded := true }, []) else none
+  | .tAbort =>
+    -- once the request's context is done a transport may fail a read although the bytes had arrived (net/http closes
+    -- the connection). For unread data frames this changes nothing the client can see (the reader ends with the
+    -- context's status either way); for the unread trailer frame it does, so that case is an action of its own.
+    if s.ctx.isSome && s.pc == 1 then
+      (match s.body with
+       | [.trailer _ _] => some ({ s with body := [.bad] }, [])
+       | _ => none)
+    else none
   | .tReadReq =>
     match s.cSend with
     | some _ => some ({ s with cSend := none }, [.ret .cs .ok])
